@@ -99,7 +99,14 @@ structure Pool where
   addr : Bytes
   isSlave : Bool
   active : List Nat := []      -- backend ids, front first (`activeList`)
+  removed : Bool := false      -- the node left the topology: `Pool.Close` + deleted from `ProxyPool`
   deriving Repr
+
+/-- a queued task of the poller (`asyncTaskQueue`, FIFO): a write signal or a close request for a redis connection -/
+inductive Task
+  | write (b : Nat)
+  | close (b : Nat)
+  deriving Repr, DecidableEq
 
 structure Req where
   owner : Nat
@@ -114,7 +121,7 @@ structure State where
   pools : List Pool := []
   table : List (Nat × Nat × RSet) := []   -- slot ranges (inclusive) and their replica set
   timeouts : List FragRef := []           -- pending deadlines, earliest first
-  tasks : List Nat := []                  -- queued write signals (backend ids)
+  tasks : List Task := []                 -- queued poller tasks, oldest first
   flag : Option String := none            -- "stuck" / "shutdown" / "panic" / "badChoice": outside the modelled domain
   deriving Repr
 
@@ -149,7 +156,7 @@ def slotOwner (table : List (Nat × Nat × RSet)) (slot : Nat) : Option RSet :=
   | some r => some r.2.2
   | none => none
 
-def findPool (pools : List Pool) (addr : Bytes) : Option Nat := pools.findIdx? (fun p => p.addr = addr)
+def findPool (pools : List Pool) (addr : Bytes) : Option Nat := pools.findIdx? (fun p => p.addr = addr ∧ !p.removed)
 
 /-! ### client side: flush and close -/
 
@@ -236,7 +243,7 @@ def poolGet (S : Strs) (cfg : Cfg) (s : State) (p : Nat) : State × Nat :=
 
 /-- `EnqueueOutFrag`: queue the fragment and send a write signal -/
 def enqueueOut (s : State) (b : Nat) (e : QEntry) : State :=
-  { s.updBackend b (fun x => { x with outQ := x.outQ ++ [e], enq := x.enq ++ [e] }) with tasks := s.tasks ++ [b] }
+  { s.updBackend b (fun x => { x with outQ := x.outQ ++ [e], enq := x.enq ++ [e] }) with tasks := s.tasks ++ [.write b] }
 
 def fragReq (S : Strs) (s : State) : FragRef → Bytes
   | .frag mi slot => match s.req mi with
@@ -262,9 +269,10 @@ def writeSignal (S : Strs) (cfg : Cfg) (s : State) (b : Nat) : State :=
     let s1 := s.updBackend b (fun x => { x with inQ := x.inQ ++ x.outQ.map (·.ref), sent := x.sent ++ x.outQ, outQ := [], out := x.out ++ bytes })
     { s1 with timeouts := s1.timeouts ++ (x.outQ.map (·.ref)).filter (tracked cfg) }
 
-def runTasks (S : Strs) (cfg : Cfg) (s : State) : State :=
-  let s1 := s.tasks.foldl (writeSignal S cfg) s
-  { s1 with tasks := [] }
+/-- one poller task -/
+def runTask (S : Strs) (cfg : Cfg) (close : State → Nat → State) (s : State) : Task → State
+  | .write b => writeSignal S cfg s b
+  | .close b => close s b
 
 /-! ### request side -/
 
@@ -523,6 +531,21 @@ def backendClose (S : Strs) (s : State) (b : Nat) : State :=
       let s2 := x.inQ.foldl dropTimeout s1
       s2.updBackend b (fun x => { x with opened := false, inQ := [], outQ := [], leftover := [] })
 
+/-- the poller runs its queued tasks in order -/
+def runTasks (S : Strs) (cfg : Cfg) (s : State) : State :=
+  let s1 := s.tasks.foldl (runTask S cfg (backendClose S)) s
+  { s1 with tasks := [] }
+
+/-- a node leaves the topology (`ticker`): its pool is closed - every pooled connection gets a close task - and
+    forgotten; requests for its slots are rejected from then on (no pool) -/
+def poolRemove (s : State) (p : Nat) : State :=
+  match s.pools[p]? with
+  | none => s
+  | some pool =>
+    if pool.removed then s
+    else { s with pools := setAt s.pools p (fun q => { q with removed := true, active := [] }),
+                  tasks := s.tasks ++ pool.active.map Task.close }
+
 /-- `msgTimeout` once every pending deadline has passed -/
 def expire (S : Strs) (s : State) : State :=
   let s1 := s.timeouts.foldl (fun s f =>
@@ -552,6 +575,7 @@ inductive Event
   | backendBytes (b : Nat) (chunk : Bytes)
   | backendClose (b : Nat)
   | expire
+  | poolRemove (p : Nat)
   deriving Repr
 
 def step (T : Tables) (S : Strs) (cfg : Cfg) (slotFn : Bytes → Nat) (s : State) (e : Event) : State :=
@@ -564,6 +588,7 @@ def step (T : Tables) (S : Strs) (cfg : Cfg) (slotFn : Bytes → Nat) (s : State
   | .backendBytes b chunk => backendBytes T S cfg slotFn s b chunk
   | .backendClose b => backendClose S s b
   | .expire => expire S s
+  | .poolRemove p => poolRemove s p
 
 /-- start-up: the configured pools and slot table, every pool connected once (RedisPreconnect), no client yet -/
 def init (S : Strs) (cfg : Cfg) (pools : List (Bytes × Bool)) (table : List (Nat × Nat × RSet)) : State :=
